@@ -85,7 +85,7 @@ class UnitsEngine(Engine):
     max_ops = 40
     expected_probes = ['named_after_random', 'unseeded_reset', 'named_sweep_subsets', 'precedence_pow_before_mul',
                        'precedence_left_to_right_div', 'nested_parens', 'whitespace_variants', 'cross_epoch_compared',
-                       'style_fit_done', 'literal_with_unit', 'array_roundtrip', 'refused_reset_raised', 'integer_dtype_value',
+                       'style_fit_done', 'literal_with_unit', 'array_roundtrip', 'refused_reset_raised', 'integer_dtype_value', 'complex_value_roundtrip',
                        'scribble_on_literal_result', 'named_keywords_in_other_order', 'scribble_on_unit_table']
     rule = ('Each run is a history of up to 40 operations on the process-global unit tables: working-unit resets (seeded '
             'random, unseeded random through the patched random seam, SI, atomman default, named subsets of length/mass/'
@@ -200,9 +200,12 @@ class UnitsEngine(Engine):
             n = int(np.prod(shape)) if shape else 1
             vals = [r.choice([r.uniform(-1e3, 1e3), 10 ** r.uniform(-12, 12), float(r.randint(-5, 5))]) for _ in range(n)]
             op = {'op': 'roundtrip', 'expr': self._gen_expr(ctx, r.randint(0, 2)), 'shape': list(shape), 'values': vals,
-                  'as_list': r.random() < 0.3, 'dtype': r.choice(['float', 'float', 'float', 'int'])}
+                  'as_list': r.random() < 0.3, 'dtype': r.choice(['float', 'float', 'float', 'int', 'float', 'float', 'float', 'int', 'complex'])}
             if op['dtype'] == 'int':
                 op['values'] = [float(r.randint(-9, 99)) for _ in range(n)]
+            if op['dtype'] == 'complex':
+                # amplitudes, structure factors, dynamical matrices: values with an imaginary part carry units as well
+                op['imag'] = [r.choice([r.uniform(-1e3, 1e3), float(r.randint(-5, 5)), 10 ** r.uniform(-6, 6)]) for _ in range(n)]
             return op
         if k == 'parse':
             special = r.random()
@@ -350,6 +353,8 @@ class UnitsEngine(Engine):
         x = np.array(op['values'], dtype=float).reshape(op['shape'])
         dt = op.get('dtype', 'float')
         rt_ulp = RT_ULP
+        if dt == 'complex' and len(op.get('imag', [])) == x.size:
+            return self._roundtrip_complex(ctx, st, op, x, want, s)
         if dt == 'int' and np.all(x == np.round(x)):
             # whole numbers handed over with an integer dtype (np.arange, counts, Miller indices times a spacing ...)
             xi = x.astype(int)
@@ -382,6 +387,32 @@ class UnitsEngine(Engine):
         if op['shape']:
             ctx.probe('array_roundtrip')
         ctx.ev('op', 'roundtrip', {'expr': expr, 'x': x})
+
+    def _roundtrip_complex(self, ctx, st, op, x, want, s):
+        expr = op['expr']
+        z = x + 1j * np.array(op['imag'], dtype=float).reshape(op['shape'])
+        given = z.tolist() if op['as_list'] else (z if op['shape'] else complex(z))
+        keep = np.array(given, copy=True) if isinstance(given, np.ndarray) else None
+        w = ctx.must('C09.K1', uc.set_in_units, given, expr, klass='set_in_units/complex')
+        wa = np.asarray(w)
+        if wa.shape != z.shape:
+            raise Violation('C09.K1', {'what': 'round trip changed the shape', 'got': list(wa.shape), 'want': list(z.shape)}, klass='rt/shape')
+        wa = wa.astype(complex)
+        for part, name in ((np.real, 'real'), (np.imag, 'imaginary')):
+            if not np.all(np.abs(part(wa) - part(z) * want) <= (1e-12 + 1.5 * s) * np.abs(part(z) * want)):
+                raise Violation('C09.K1', {'what': 'set_in_units(z, u) is not z times the unit (%s part)' % name, 'z': z, 'got': wa, 'expr': expr},
+                                klass='set/value/complex')
+        back = np.asarray(ctx.must('C09.K1', uc.get_in_units, w, expr, klass='get_in_units/complex')).astype(complex)
+        if keep is not None and not np.array_equal(keep, given):
+            raise Violation('C09.K1', {'what': 'the caller\'s array was changed by the conversion', 'before': keep, 'after': np.asarray(given)},
+                            klass='rt/operand')
+        if back.shape != z.shape:
+            raise Violation('C09.K1', {'what': 'round trip changed the shape', 'got': list(back.shape), 'want': list(z.shape)}, klass='rt/shape')
+        for a, b in zip(back.reshape(-1), z.reshape(-1)):
+            if ulps(a.real, b.real) > RT_ULP or ulps(a.imag, b.imag) > RT_ULP:
+                raise Violation('C09.K1', {'what': 'get(set(z,u),u) != z', 'z': complex(b), 'got': complex(a), 'expr': expr}, klass='rt/value/complex')
+        ctx.probe('complex_value_roundtrip')
+        ctx.ev('op', 'roundtrip', {'expr': expr, 'z': z})
 
     def _parse(self, ctx, st, op):
         expr = op['expr']
